@@ -447,6 +447,50 @@ def _is_int_const(v):
     return isinstance(v, ast.Constant) and isinstance(v.value, int)
 
 
+def no_sign_zero(chk, prog, funcs, why):
+    """listed functions must be right where the argument of a would-be np.sign vanishes: sign(0) == 0 annihilates the factor it multiplies"""
+    n = 0
+    for f in funcs:
+        n += 1
+        bad = [x for x in ast.walk(f.node) if isinstance(x, ast.Call) and ast.unparse(x.func).split(".")[-1] == "sign"]
+        for x in bad:
+            chk.finding("NO-SIGN-ZERO", f.module.rel, f.qname, "np.sign: %s" % stmt_text(x), "np.sign(x) is 0 for x == 0: %s" % why, line=x.lineno)
+        chk.record("NO-SIGN-ZERO", f.ref, "no factor np.sign(.) in a function that must be exact where its argument vanishes", verdict="VIOLATION" if bad else "HOLDS")
+    return n
+
+
+# functions in which *every* domain-restricted call (np.sqrt, np.arccos, np.arcsin) has an argument that interval analysis proves inside the
+# domain (clip / abs / squares / dominating comparison): the authors guard against rounding residue there, so an unguarded site is a regression.
+DOMAIN_GUARDED = {
+    "ahrs/common/orientation.py::chiaverini": 8, "ahrs/filters/fqa.py::FQA.estimate": 7, "ahrs/filters/aqua.py::AQUA.estimate": 18,
+    "ahrs/filters/complementary.py::Complementary.am_estimation": 2, "ahrs/filters/tilt.py::Tilt.estimate": 1, "ahrs/filters/tilt.py::Tilt._compute_all": 1,
+    "ahrs/common/orientation.py::acc2q": 1, "ahrs/common/orientation.py::am2angles": 1,
+}
+
+
+def domain_guard(chk, prog, refs=None):
+    from .interval import Intervals
+    n = 0
+    for ref, want in DOMAIN_GUARDED.items():
+        if refs is not None and ref not in refs:
+            continue
+        f = prog.func(ref)
+        iv = Intervals(f).analyse()
+        for s_ in iv.sites:
+            n += 1
+            site = "%s::%s(%s)" % (ref, s_["kind"], s_["arg"][:60])
+            if s_["ok"]:
+                chk.record("DOMAIN-GUARD", site, "argument interval [%g, %g] lies inside the domain of %s" % (s_["interval"][0], s_["interval"][1], s_["kind"]))
+            else:
+                why = "the argument of np.%s is only bounded by [%g, %g]: rounding residue of a mathematically admissible value leaves the domain and the result is NaN " \
+                      "(every other such call in this function is clipped or otherwise bounded)" % (s_["kind"], s_["interval"][0], s_["interval"][1])
+                chk.record("DOMAIN-GUARD", site, "argument provably inside the domain", verdict="VIOLATION", detail=why)
+                chk.finding("DOMAIN-GUARD", f.module.rel, f.qname, "np.%s(%s)" % (s_["kind"], s_["arg"][:80]), why, line=s_["node"].lineno)
+        if len(iv.sites) < 1:
+            chk.error("DOMAIN-GUARD: %s has no sqrt/arccos/arcsin call any more (%d confirmed by hand)" % (ref, want))
+    return n
+
+
 ALL = {"PARAM-DEAD": param_dead, "SWAPPED-ARGS": swapped_args, "METHOD-TRUTH": method_truth, "VIEW-SWAP": view_swap,
        "MODULE-STATE": module_state, "SHADOW-REBIND": shadow_rebind, "CASE-MIXED": case_mixed, "INT-ALLOC": int_alloc}
 
